@@ -50,6 +50,7 @@ static const char ps_fcodes[6] = {'d', 'o', 'c', 'D', 'O', 'C'};
 static void ps_logf(const char *fmt, ...) {
   if (!ps_log_on) return;
   va_list ap;
+  if (!ps_log) { ps_log_cap = 1 << 16; ps_log = (char *)malloc(ps_log_cap); ps_log[0] = 0; }
   for (;;) {
     va_start(ap, fmt);
     int n = vsnprintf(ps_log + ps_log_len, ps_log_cap - ps_log_len, fmt, ap);
@@ -67,6 +68,7 @@ static void ps_loghex(const void *p, size_t n) {
   static const char hx[] = "0123456789abcdef";
   if (!ps_log_on) return;
   if (n == 0) { ps_logf("-"); return; }
+  if (!ps_log) { ps_log_cap = 1 << 16; ps_log = (char *)malloc(ps_log_cap); ps_log[0] = 0; }
   while (ps_log_cap - ps_log_len < 2 * n + 2) {
     ps_log_cap = ps_log_cap ? ps_log_cap * 2 : 1 << 16;
     ps_log = (char *)realloc(ps_log, ps_log_cap);
